@@ -1,18 +1,19 @@
 SPECIFICATION Spec
 CONSTANTS
-  K = 3
+  K = 4
   SizeLimit = 3
   PeerLimit = 2
   RingCap = 1
   CacheCap = 0
-  Universe <- UA
+  Universe <- UC
   H0 = 1
   Peers = {1}
-  Fine = FALSE
+  Fine = TRUE
   UseRing = FALSE
   MaxWritten = 99
-  Split = FALSE
-  SelfFeed = FALSE
+  Split = TRUE
+  SelfFeed = TRUE
 VIEW View
-ACTION_CONSTRAINT Emit
+INVARIANT Inv
+PROPERTY StepProp
 CHECK_DEADLOCK FALSE
